@@ -78,6 +78,13 @@ Section History.
                      let '(wf, es) := write_all c w' rest in (wf, e :: es)
     end.
 
+  Fixpoint write_all_enc (enc : N -> bool) (c : cid CS) (w : wstate CS) (rows : list (list text)) : wstate CS * list (option err) :=
+    match rows with
+    | [] => (w, [])
+    | row :: rest => let '(w', e, _) := write_row_enc enc c w row in
+                     let '(wf, es) := write_all_enc enc c w' rest in (wf, e :: es)
+    end.
+
   (* one operation on a CID whose checks are in states [sts]: new states and what the caller observes *)
   Definition exec (c : cid CS) (sts : list CS) (o : op) : list CS * outcome :=
     match o with
